@@ -15,7 +15,9 @@ CONSTANTS
 VARIABLES h, hist
 
 vars == <<h, hist>>
-vw == h                       \* VIEW: the history is not part of the state
+\* VIEW: neither the history nor (in the safety configurations, where an explicit budget decides
+\* how far a call runs) the metric counters are part of the state
+vw == [h EXCEPT !.mt = 0, !.pc = 0]
 
 Init == h = EmptyHeap /\ hist = <<>>
 
